@@ -16,7 +16,7 @@ CLAIMS = {
               '(insert / cut below / cut above, values untouched), cache contents in the no-eviction regime (insert is exactly map insert), chunk rotation '
               'changes nothing of the state machine; all chunk limits symbolic; read(): the index range handed to the iterator is exactly [from, max(from,to)) in index order (defect D5, fixed) and a resident entry is served from the cache with the id stored in the index; '
               'get_log_id/log_state/stat report the fields of the state; the batch append loop applies one append_and_apply per entry in order (rule E7 desugaring). Lemma lemma_c01_refinement (U11, over the contracts only): the reference relation is preserved by every step.'),
-        note=TRUST + ' History legality of purge (Raft-legal argument) is a stated precondition of the refinement clauses; update_state with an arbitrary state is outside the contracts.',
+        note=TRUST + ' History legality of purge (Raft-legal argument) is a stated precondition of the refinement clauses; update_state is under contract only for a state that keeps `last` (what save_user_data and chunk heads use); an arbitrary state is outside the contracts.',
         technique='Verus function contracts against a reference step function, on extracted code',
         design='5 C01',
     ),
